@@ -1142,6 +1142,7 @@ func pbServerCredsSerialize(in []*MsgCredServer) []*pbx.ServerCred {
 		out[i] = &pbx.ServerCred{
 			Method: cr.Method,
 			Value:  cr.Value,
+			Done:   cr.Done,
 		}
 	}
 
